@@ -17,14 +17,19 @@
    4..16, 20, 21), every list of points, every list of canonical scalars and either way of
    processing the first chunk, msmInner (partitionScalars + per-chunk bucket method with the
    smaller bucket array of the last window + chunk combination) returns sum_i s_i P_i.
-   PARTIAL: the choice of c / number of splits (any choice is correct by C09_msm_inner and
-   C09_split_sum; the cost model itself is compared by correspondence) and the Montgomery
-   flag of the scalars are tied by correspondence (per-c results and packed limbs compared
-   through hooks);
+   C09_multi_exp: MultiExp as a whole - for every window in [2,64], every number of splits
+   k >= 1 and slice length m (slices as cut by the code: k-1 slices of m, the rest to the
+   caller), every order in which the goroutines finish, either first-chunk mode: the sum of
+   the partial results is sum_i s_i P_i.  C09_multi_exp_top: with the modelled cost function
+   the window/split loop terminates within log2(NbTasks)+1 rounds for every NbTasks >= 1,
+   chooses an implemented window, and the result is sum_i s_i P_i.
+   PARTIAL: the float arithmetic of bestC is modelled on exact rationals and cannot be
+   observed from outside (the theorems hold for every choice); the Montgomery flag of the
+   scalars is tied by correspondence (per-c results and packed limbs compared through hooks);
    termination of the channel protocol is C12/C20. *)
-From Coq Require Import ZArith List.
+From Coq Require Import ZArith List Permutation.
 From GoIpa Require Import Model.Alg Model.Pippenger Proofs.AlgLaws Proofs.IPAProofs
-  Proofs.PippengerProofs Proofs.MsmProofs Proofs.PartitionProofs Proofs.MsmInner.
+  Proofs.PippengerProofs Proofs.MsmProofs Proofs.PartitionProofs Proofs.MsmInner Proofs.MultiExpProofs.
 Import ListNotations.
 Open Scope Z_scope.
 
@@ -102,8 +107,30 @@ Section C09.
     2 <= c <= 64 -> length points = length ss -> Forall (fun s => 0 <= s < 2 ^ 253) ss ->
     msm_inner go c points (fst (partition_scalars c ss)) split = msmzv fo go points ss.
   Proof. exact (msm_inner_spec fo go FL GL fofz_add fofz_mul fofz_1). Qed.
+
+  (* MultiExp for every window, split count, slice length, completion order *)
+  Theorem C09_multi_exp : forall c k m order points ss split,
+    2 <= c <= 64 -> length points = length ss -> Forall (fun s => 0 <= s < 2 ^ 253) ss ->
+    (1 <= k)%nat -> Permutation order (seq 0 (k - 1)) ->
+    multi_exp go c k m order points ss split = msmzv fo go points ss.
+  Proof. exact (multi_exp_spec fo go FL GL fofz_add fofz_mul fofz_1). Qed.
+
+  (* ... and with the window / split loop of the code in front: terminates, right result *)
+  Theorem C09_multi_exp_top : forall f nbTasks order points ss split,
+    1 <= nbTasks <= 2 ^ Z.of_nat f ->
+    (forall k, Permutation (order k) (seq 0 (k - 1))) ->
+    length points = length ss -> Forall (fun s => 0 <= s < 2 ^ 253) ss ->
+    multi_exp_top go (S f) nbTasks order points ss split = Some (msmzv fo go points ss).
+  Proof. exact (multi_exp_top_spec fo go FL GL fofz_add fofz_mul fofz_1). Qed.
 End C09.
 Print Assumptions C09_msm_inner.
+Print Assumptions C09_multi_exp.
+Print Assumptions C09_multi_exp_top.
+
+(* the cost model only ever picks an implemented window *)
+Theorem C09_best_c_implemented : forall n, In (best_c n) implemented_cs.
+Proof. exact best_c_in. Qed.
+Print Assumptions C09_best_c_implemented.
 Print Assumptions C09_process_chunk.
 Print Assumptions C09_running_sum.
 Print Assumptions C09_reduce_chunks.
